@@ -3,6 +3,7 @@ import re
 from mir import Origins, strip, short_span
 from dtable import Walker, Unrecognised, pm, events_only, show
 from rules import agent as A
+from rules import agent_e2 as AE
 from e1 import construct_sites, field_accesses
 
 LEVEL = "proof"
@@ -17,60 +18,7 @@ def had_credentials_definition(prog, chk, rule="request_had_credentials"):
     cs = construct_sites(prog, A.REQ)
     chk.ob(rule, "StunRequestState constructed only in StunRequestState::new",
            [c["body"] for c in cs] == [A.REQ + "::new"], detail=repr([c["body"] for c in cs]))
-    if not cs:
-        return
-    b = prog.bodies[A.REQ + "::new"]
-    rv = cs[0]["stmt"]["rv"]
-    idx = rv["fields"].index("request_had_credentials")
-    op = rv["ops"][idx]
-    og = Origins(prog, b)
-    req = ("param", "request")
-    has_mi = ("call", r"MessageBuilder::<'a>::has_attribute$", [req, ("const", 0x0008)])
-    has_m2 = ("call", r"MessageBuilder::<'a>::has_attribute$", [req, ("const", 0x001C)])
-    o = strip(og.operand(op))
-    multi = {i for i in range(len(b.locals)) if len(b.defs().get(i, [])) > 1 and not b.is_arg(i)}
-
-    def final_value(val):
-        def oracle(o_, t, body):
-            s = strip(o_)
-            if pm(s, has_mi, b):
-                return val["MI"]
-            if pm(s, has_m2, b):
-                return val["M2"]
-            if pm(s, ("call", r"TransportType as std::cmp::PartialEq>::eq$", None), b):
-                return 0
-            return None
-        w = Walker(prog, b, oracle, lambda *a: None, track_locals=multi, mut_arg_event=False)
-        beh = w.run()
-        v = o
-        if v.k == "multi":
-            last = None
-            for e in beh:
-                if e[0] == "set" and e[1] == v.a[0]:
-                    last = e[2]
-            v = strip(last) if last is not None else v
-        return v, beh
-    for mi in (0, 1):
-        for m2 in (0, 1):
-            try:
-                v, beh = final_value({"MI": mi, "M2": m2})
-            except Unrecognised as e:
-                chk.fail(rule, "MI=%d,M2=%d|unrecognised-guard" % (mi, m2), short_span(b.term(e.bb)["span"]), str(e)[:400])
-                continue
-            want = bool(mi or m2)
-            # the value is either a constant bool or the result of the has_attribute call the oracle answered
-            if v.k == "const" and isinstance(v.a[0], bool):
-                got = v.a[0]
-            elif pm(v, has_mi, b):
-                got = bool(mi)
-            elif pm(v, has_m2, b):
-                got = bool(m2)
-            elif v.k == "bin" and v.a[0] in ("BitOr",) and pm(v.a[1], has_mi, b) and pm(v.a[2], has_m2, b):
-                got = bool(mi or m2)
-            else:
-                got = None
-            chk.ob(rule, "new|MI=%d,M2=%d -> %s" % (mi, m2, want), got == want, b.loc(),
-                   detail="request_had_credentials evaluates to %r" % (v,), how=repr(v)[:200])
+    AE.req_new(prog, chk, rule, {"credentials"})
 
 
 def run(prog, chk, tier):
